@@ -30,6 +30,8 @@ pub struct Node {
     pub ctime_ok: Vec<Timestamp>,
     /// acceptable modification times (empty: not pinned)
     pub mtime_ok: Vec<Timestamp>,
+    /// the last call that stored bytes in this file never asked the clock for the time
+    pub mtime_missed: bool,
     pub pre_existing: bool,
     /// the history has (possibly) changed this object or, for directories, its slot list
     pub touched: bool,
@@ -161,6 +163,7 @@ impl Model {
             disk_len: 0,
             ctime_ok: vec![],
             mtime_ok: vec![],
+            mtime_missed: false,
             pre_existing: true,
             touched: false,
             open: false,
@@ -278,6 +281,7 @@ impl Model {
             disk_len: 0,
             ctime_ok: stamps.clone(),
             mtime_ok: stamps,
+            mtime_missed: false,
             pre_existing: false,
             touched: true,
             open: false,
@@ -302,6 +306,7 @@ impl Model {
             disk_len: 0,
             ctime_ok: vec![],
             mtime_ok: vec![],
+            mtime_missed: false,
             pre_existing: false,
             touched: true,
             open: false,
